@@ -11,3 +11,18 @@ pub mod subj;
 
 pub use driver::{catch, finish, main_with, run_jobs, try_exact, Ctx, JobOut, Meta, Summary, Tier};
 pub use json::Json;
+
+/// Build an interpolator from input the check knows to be valid. When the build fails (a C10
+/// matter, reported by the C10 check) the case is skipped and counted instead of judged.
+#[macro_export]
+macro_rules! valid_build {
+    ($out:expr, $e:expr, $esc:expr) => {
+        match $crate::catch(|| $e) {
+            Ok(Ok(ip)) => ip,
+            _ => {
+                $out.count("skipped:build_of_valid_input_failed(C10_matter)", 1);
+                $esc
+            }
+        }
+    };
+}
